@@ -1,3 +1,202 @@
-import Cutadapt.Stats
+import Cutadapt.Proofs.StepsReport
+/-! # C04 — each read is written once or counted as filtered once; totals add up
+
+Model: `Cutadapt.Pipeline` (`stepS`, `stepP`, `runStepsS/P`, `processReadS/P`, `runSingle/runPaired`),
+`Cutadapt.Stats` (`summarize`, `collectFiltered`). A run produces an event log; statistics are folds over it.
+All theorems hold for every step list of the shape `make_pipeline_from_args` builds (`Terminal`), every modifier list,
+every read. Helper lemmas: `Cutadapt/Proofs/StepsCore.lean`, `StepsFate.lean`. -/
 namespace Cutadapt.C04
+open Cutadapt Cutadapt.Steps
+
+/-- The shape of the step list of every pipeline: rest/info/wildcard writers and filters, closed by exactly one
+    sink, demultiplexer or combinatorial demultiplexer. -/
+def Terminal (steps : List Step) : Prop :=
+  ∃ pre last, steps = pre ++ [last] ∧ (∀ s ∈ pre, s.isPass = true) ∧ last.isFinal = true
+
+/-! ## One fate per read -/
+
+/-- Single-end. The events a terminal step list appends for one read contain exactly one fate event (`sinkStat` = counted as
+    written, `filtered k` = counted in the category of step `k`) and at most one `write`; a `sinkStat` belongs to the last
+    step, carries the length of the read and comes with exactly one `write` of this read to a writer of the last step;
+    a `filtered k` belongs to a step `k` that has a filter category, and any `write` next to it is the redirect file of
+    exactly that filter, receiving this read. -/
+theorem each_read_one_fate {ads : List Matchable} {steps : List Step} {idx : Nat} {r : Read} {i : Info}
+    {evs0 evs : List Event} (ht : Terminal steps) (h : runStepsS ads steps idx r i evs0 = .ok evs) :
+    ∃ app, evs = evs0 ++ app ∧
+      app.countP isFate = 1 ∧ app.countP isWrite ≤ 1 ∧ app.countP isInput = 0 ∧
+      (∀ k l1 l2, Event.sinkStat k l1 l2 ∈ app →
+          k + 1 = idx + steps.length ∧ l1 = r.len ∧ l2 = none ∧
+          ∃ w, w ∈ lastWriters steps ∧ app.filter isWrite = [.write w r none]) ∧
+      (∀ k, Event.filtered k ∈ app → idx ≤ k ∧
+          ∃ s, steps[k - idx]? = some s ∧ s.filterIdent.isSome = true ∧
+            ∀ w a b, Event.write w a b ∈ app → a = r ∧ b = none ∧ ∃ p1 p2 mode, s = .filter p1 p2 mode (some w)) := by
+  obtain ⟨pre, last, rfl, hp, hl⟩ := ht
+  obtain ⟨texts, tail, rfl, htx, htl⟩ := runStepsS_terminal hp hl h
+  exact ⟨texts ++ tail, by simp, fate_of_tail htx htl⟩
+
+/-- Paired-end: the same for a pair; the `write` carries both mates. -/
+theorem each_pair_one_fate {a1 a2 : List Matchable} {steps : List Step} {idx : Nat} {r1 r2 : Read} {i : Info × Info}
+    {evs0 evs : List Event} (ht : Terminal steps) (h : runStepsP a1 a2 steps idx (r1, r2) i evs0 = .ok evs) :
+    ∃ app, evs = evs0 ++ app ∧
+      app.countP isFate = 1 ∧ app.countP isWrite ≤ 1 ∧ app.countP isInput = 0 ∧
+      (∀ k l1 l2, Event.sinkStat k l1 l2 ∈ app →
+          k + 1 = idx + steps.length ∧ l1 = r1.len ∧ l2 = some r2.len ∧
+          ∃ w, w ∈ lastWriters steps ∧ app.filter isWrite = [.write w r1 (some r2)]) ∧
+      (∀ k, Event.filtered k ∈ app → idx ≤ k ∧
+          ∃ s, steps[k - idx]? = some s ∧ s.filterIdent.isSome = true ∧
+            ∀ w a b, Event.write w a b ∈ app → a = r1 ∧ b = some r2 ∧ ∃ p1 p2 mode, s = .filter p1 p2 mode (some w)) := by
+  obtain ⟨pre, last, rfl, hp, hl⟩ := ht
+  obtain ⟨texts, tail, rfl, htx, htl⟩ := runStepsP_terminal hp hl h
+  exact ⟨texts ++ tail, by simp, fate_of_tail htx htl⟩
+
+/-- a concrete pipeline tail: `-m 3 --too-short-output`, `--max-n 0`, then the sink -/
+def exSteps : List Step :=
+  [.restWriter 0, .filter (some (.tooShort 3)) none .any (some 0), .filter (some (.tooManyN 0)) none .any none, .sink 1]
+def exRead (s : Bytes) : Read := ⟨[114], s, none⟩
+
+theorem exSteps_terminal : Terminal exSteps :=
+  ⟨[.restWriter 0, .filter (some (.tooShort 3)) none .any (some 0), .filter (some (.tooManyN 0)) none .any none], .sink 1,
+   rfl, by simp [Step.isPass], rfl⟩
+
+example : runStepsS [] exSteps 0 (exRead [65, 67]) { original := exRead [65, 67] } [] =
+    .ok [.filtered 1, .write 0 (exRead [65, 67]) none] := by rfl
+example : runStepsS [] exSteps 0 (exRead [65, 67, 71, 84]) { original := exRead [65, 67, 71, 84] } [] =
+    .ok [.write 1 (exRead [65, 67, 71, 84]) none, .sinkStat 3 4 none] := by rfl
+
+/-! ## The statistics are sums over the log -/
+
+/-- `summarize` is a monoid homomorphism from event logs (with `++`) to summaries with componentwise addition
+    (`IsSum`; the per-step and per-length tables are compared entry by entry through `getCount`). -/
+theorem summarize_append (a b : List Event) : IsSum (summarize (a ++ b)) [summarize a, summarize b] := by
+  simpa using summarize_flatten [a, b]
+
+/-- every reported figure of an error-free run is the sum of the figures of the individual reads -/
+theorem figures_are_sums_over_reads_single {p : SinglePipeline} {reads : List Read} {evs : List Event}
+    (h : runSingle p reads = (evs, none)) :
+    evs = (reads.map (evsOf (processReadS p))).flatten ∧
+    IsSum (summarize evs) (reads.map (fun r => summarize (evsOf (processReadS p) r))) :=
+  ⟨(run_is_concat h).1, summarize_run h⟩
+
+theorem figures_are_sums_over_reads_paired {p : PairedPipeline} {reads : List (Read × Read)} {evs : List Event}
+    (h : runPaired p reads = (evs, none)) :
+    evs = (reads.map (evsOf (processReadP p))).flatten ∧
+    IsSum (summarize evs) (reads.map (fun r => summarize (evsOf (processReadP p) r))) :=
+  ⟨(run_is_concat h).1, summarize_run h⟩
+
+/-- Single-end totals of an error-free run: the input count is the number of reads; input = written + Σ filter counters;
+    the written count is the number of `sinkStat` events; input bases are the bases of the reads; and, when no redirect
+    file shares a writer with the last step, written reads / bases are exactly the records that the writers of the last
+    step received. -/
+theorem counts_add_up_single {p : SinglePipeline} {reads : List Read} {evs : List Event}
+    (ht : Terminal p.steps) (h : runSingle p reads = (evs, none)) :
+    (summarize evs).n = reads.length ∧
+    (summarize evs).n = (summarize evs).written + ((summarize evs).filteredByStep.map (·.2)).sum ∧
+    (summarize evs).written = evs.countP isSinkStat ∧
+    (summarize evs).bp1 = (reads.map Read.len).sum ∧
+    (summarize evs).bp2 = 0 ∧
+    (RedirectsApart p.steps →
+      (summarize evs).written = (recordsTo (lastWriters p.steps) evs).length ∧
+      (summarize evs).writtenBp1 = ((recordsTo (lastWriters p.steps) evs).map (·.1.len)).sum ∧
+      (summarize evs).writtenBp2 = 0 ∧
+      ∀ x ∈ recordsTo (lastWriters p.steps) evs, x.2 = none) := by
+  have hlog : ∀ r e, processReadS p r = .ok e → ∃ r1 r2, ReadLog p.steps (Read.len r) ((fun _ => none) r) r1 r2 e :=
+    fun r e he => by obtain ⟨r', _, _, _, _, hl⟩ := processReadS_log ht he; exact ⟨r', none, hl⟩
+  obtain ⟨h1, h2, h3, h4, h5, h6⟩ := counts_of_logs hlog h
+  refine ⟨h1, h2, h3, h4, by rw [h5]; exact sum_map_zero _, fun hd => ?_⟩
+  obtain ⟨g1, g2, g3⟩ := h6 hd
+  have hnone : ∀ x ∈ recordsTo (lastWriters p.steps) evs, x.2 = none := by
+    intro x hx
+    obtain ⟨w, -, hw⟩ := mem_recordsTo hx
+    obtain ⟨r, -, hok, hmem⟩ := mem_run h hw
+    obtain ⟨r1, r2, hl⟩ := hlog r _ hok
+    obtain ⟨r', _, _, _, _, hl⟩ := processReadS_log ht hok
+    exact (hl.writes hmem).2
+  refine ⟨g1, g2, ?_, hnone⟩
+  rw [g3]
+  have : ∀ x ∈ recordsTo (lastWriters p.steps) evs, (x.2.map Read.len).getD 0 = 0 := fun x hx => by simp [hnone x hx]
+  rw [List.map_congr_left this]
+  exact sum_map_zero _
+
+/-- Paired-end totals of an error-free run. -/
+theorem counts_add_up_paired {p : PairedPipeline} {reads : List (Read × Read)} {evs : List Event}
+    (ht : Terminal p.steps) (h : runPaired p reads = (evs, none)) :
+    (summarize evs).n = reads.length ∧
+    (summarize evs).n = (summarize evs).written + ((summarize evs).filteredByStep.map (·.2)).sum ∧
+    (summarize evs).written = evs.countP isSinkStat ∧
+    (summarize evs).bp1 = (reads.map (·.1.len)).sum ∧
+    (summarize evs).bp2 = (reads.map (·.2.len)).sum ∧
+    (RedirectsApart p.steps →
+      (summarize evs).written = (recordsTo (lastWriters p.steps) evs).length ∧
+      (summarize evs).writtenBp1 = ((recordsTo (lastWriters p.steps) evs).map (·.1.len)).sum ∧
+      (summarize evs).writtenBp2 = ((recordsTo (lastWriters p.steps) evs).map (fun x => (x.2.map Read.len).getD 0)).sum) := by
+  have hlog : ∀ r e, processReadP p r = .ok e →
+      ∃ r1 r2, ReadLog p.steps ((fun r : Read × Read => r.1.len) r) ((fun r : Read × Read => some r.2.len) r) r1 r2 e :=
+    fun r e he => by obtain ⟨r', _, _, _, _, hl⟩ := processReadP_log ht he; exact ⟨r'.1, some r'.2, hl⟩
+  obtain ⟨h1, h2, h3, h4, h5, h6⟩ := counts_of_logs hlog h
+  exact ⟨h1, h2, h3, h4, by simpa using h5, h6⟩
+
+/-! ## The filter categories of the report -/
+
+/-- the keys of `FILTERS` in report.py -/
+def documentedKeys : List String :=
+  ["too_short", "too_long", "too_many_n", "too_many_expected_errors", "too_high_average_error_rate", "casava_filtered",
+   "discard_trimmed", "discard_untrimmed"]
+
+/-- every identifier a step can report is a key of the report's `FILTERS` table (passed as `filtersKeys`) -/
+theorem idents_are_documented (filtersKeys : List String) (hkeys : ∀ k ∈ documentedKeys, k ∈ filtersKeys)
+    (st : Step) (k : String) (h : st.filterIdent = some k) : k ∈ filtersKeys := by
+  apply hkeys
+  have hp : ∀ p : Pred, p.ident ∈ documentedKeys := by
+    intro p; cases p <;> simp [Pred.ident, documentedKeys]
+  cases st with
+  | filter p1 p2 mode w =>
+    cases p1 with
+    | some p => simp only [Step.filterIdent, Option.some.injEq] at h; exact h ▸ hp p
+    | none =>
+      cases p2 with
+      | some p => simp only [Step.filterIdent, Option.some.injEq] at h; exact h ▸ hp p
+      | none => simp [Step.filterIdent] at h
+  | demux ws un => simp only [Step.filterIdent, Option.some.injEq] at h; subst h; simp [documentedKeys]
+  | combDemux ws => simp only [Step.filterIdent, Option.some.injEq] at h; subst h; simp [documentedKeys]
+  | _ => simp [Step.filterIdent] at h
+
+/-- Every category of `Statistics.filtered` is the identifier of a step of the pipeline and a documented key. With
+    distinct identifiers, and when every index in `filteredByStep` belongs to a step with an identifier, the categories
+    add up to the total of the per-step filter counters — nothing is reported twice and nothing is left out. -/
+theorem report_categories_complete (filtersKeys : List String) (hkeys : ∀ k ∈ documentedKeys, k ∈ filtersKeys)
+    (steps : List Step) (evs : List Event) :
+    (∀ s : Summary, ∀ k ∈ (collectFiltered steps s).map (·.1), (∃ st ∈ steps, st.filterIdent = some k) ∧ k ∈ filtersKeys) ∧
+    ((steps.filterMap Step.filterIdent).Nodup →
+      (∀ k ∈ (summarize evs).filteredByStep.map (·.1), ∃ st, steps[k]? = some st ∧ st.filterIdent.isSome = true) →
+      ((collectFiltered steps (summarize evs)).map (·.2)).sum = ((summarize evs).filteredByStep.map (·.2)).sum) := by
+  refine ⟨?_, ?_⟩
+  · intro s k hk
+    obtain ⟨st, hst, hid⟩ := collectFiltered_keys steps s k hk
+    exact ⟨⟨st, hst, hid⟩, idents_are_documented filtersKeys hkeys st k hid⟩
+  · intro hnd hidx
+    exact collectFiltered_sum steps evs hnd (fun k hk => hidx k ((summarize_filtered_keys k evs).2 hk))
+
+/-- For an error-free single-end run through a terminal step list with distinct identifiers the side condition holds:
+    reported input = reported written + Σ of the reported filter categories. -/
+theorem report_adds_up_single {p : SinglePipeline} {reads : List Read} {evs : List Event}
+    (ht : Terminal p.steps) (hnd : (p.steps.filterMap Step.filterIdent).Nodup) (h : runSingle p reads = (evs, none)) :
+    (summarize evs).n = (summarize evs).written + ((collectFiltered p.steps (summarize evs)).map (·.2)).sum := by
+  have hlog : ∀ r e, processReadS p r = .ok e → ∃ r1 r2, ReadLog p.steps (Read.len r) ((fun _ => none) r) r1 r2 e :=
+    fun r e he => by obtain ⟨r', _, _, _, _, hl⟩ := processReadS_log ht he; exact ⟨r', none, hl⟩
+  rw [collectFiltered_sum p.steps evs hnd (fun k hk => run_filtered_idx hlog h hk)]
+  exact (counts_of_logs hlog h).2.1
+
+theorem report_adds_up_paired {p : PairedPipeline} {reads : List (Read × Read)} {evs : List Event}
+    (ht : Terminal p.steps) (hnd : (p.steps.filterMap Step.filterIdent).Nodup) (h : runPaired p reads = (evs, none)) :
+    (summarize evs).n = (summarize evs).written + ((collectFiltered p.steps (summarize evs)).map (·.2)).sum := by
+  have hlog : ∀ r e, processReadP p r = .ok e →
+      ∃ r1 r2, ReadLog p.steps ((fun r : Read × Read => r.1.len) r) ((fun r : Read × Read => some r.2.len) r) r1 r2 e :=
+    fun r e he => by obtain ⟨r', _, _, _, _, hl⟩ := processReadP_log ht he; exact ⟨r'.1, some r'.2, hl⟩
+  rw [collectFiltered_sum p.steps evs hnd (fun k hk => run_filtered_idx hlog h hk)]
+  exact (counts_of_logs hlog h).2.1
+
+/-- Without distinct identifiers the report loses reads: two steps named "discard_untrimmed" (the model's
+    `collectFiltered` keeps the later one, as `Statistics.collect` does). -/
+example : collectFiltered [.filter (some .isUntrimmed) none .any none, .demux [] none]
+    { filteredByStep := [(0, 2), (1, 3)] } = [("discard_untrimmed", 3)] := by decide +kernel
 end Cutadapt.C04
